@@ -368,13 +368,19 @@ class World:
     def apply(self, o: dict) -> str:
         """Execute the op on the implementation; returns 'ok' or the exception class name."""
         k = o["op"]
+        # resolve the handles first: a history that names a handle that does not exist is not a history
+        node = self.node_by_id(o["n"]) if "n" in o else None
+        if isinstance(o.get("v"), (tuple, list)) and not 0 <= o["v"][0] < len(self.vals):
+            raise HarnessError(f"no value with handle {o['v'][0]}")
+        if "c" in o and not 0 <= o["c"][0] < len(self.cfgs):
+            raise HarnessError(f"no configuration with handle {o['c'][0]}")
         try:
             if k == "shard":
-                self.node_by_id(o["n"]).shard(self.vals[o["v"][0]], configuration=self.cfgs[o["c"][0]],
-                                              axis=o["axis"], num_shards=o["shards"],
-                                              device_indices=list(o["devs"]), pipeline_stage=o["stage"])
+                node.shard(self.vals[o["v"][0]], configuration=self.cfgs[o["c"][0]],
+                           axis=o["axis"], num_shards=o["shards"],
+                           device_indices=list(o["devs"]), pipeline_stage=o["stage"])
             elif k == "stage":
-                self.node_by_id(o["n"]).set_pipeline_stage(self.cfgs[o["c"][0]], o["stage"])
+                node.set_pipeline_stage(self.cfgs[o["c"][0]], o["stage"])
             elif k == "addcfg":
                 c = self.model.add_device_configuration(o["name"], num_devices=o["ndev"])
                 self._reg_cfg(c)
@@ -538,6 +544,23 @@ class Gen:
                  + ["clone"] * 5 + ["roundtrip"] * 8)
         if not self._registered(w):
             kinds += ["addcfg"] * 40
+        reg_now = self._registered(w)
+        if nodes and len(reg_now) >= 2 and r.random() < 0.06:
+            nid, nd = r.choice(nodes)
+            cand = [("i", i, v) for i, v in enumerate(nd["in"]) if v is not None]
+            if nd["out"]:
+                cand.append(("o", len(nd["out"]) - 1, nd["out"][-1]))
+            if cand:
+                kind, pos, v = r.choice(cand)
+                for c in reg_now[:3]:
+                    self.pending.append({"op": "shard", "n": nid, "v": v, "c": c, "axis": self._axis(v[1]),
+                                         "shards": r.choice([1, 2, 4]), "devs": [], "stage": None})
+                if kind == "i":
+                    self.pending.append(r.choice([{"op": "replace_input", "n": nid, "i": pos, "v": None},
+                                                  {"op": "resize_in", "n": nid, "k": pos}]))
+                else:
+                    self.pending.append({"op": "resize_out", "n": nid, "k": pos})
+                return self.pending.pop(0)
         for _ in range(20):
             k = r.choice(kinds)
             if k in ("shard", "stage", "replace_input", "resize_out", "resize_in", "remove_node") and not nodes:
@@ -864,8 +887,8 @@ def run_history(init: dict, ops, strict: bool, gen: Gen | None = None, nops: int
             failures.append((i, [f"harness: {type(e).__name__}: {e}"]))
             steps.append((o, None))
             break
-        cb = {k: v for k, v in canon_before.items() if k != "res"}
-        ca = {k: v for k, v in ob.items() if k != "res"}
+        cb = {k: v for k, v in canon_before.items() if k not in ("res", "why")}
+        ca = {k: v for k, v in ob.items() if k not in ("res", "why")}
         bad = oracle_step(w, o, res, before, cb, ca, strict, invalid) + oracle_state(w, strict)
         if bad:
             failures.append((i, bad))
@@ -919,9 +942,12 @@ def first_diff(ck, h: dict) -> int:
 
 def _fails(init, ops, strict) -> list:
     try:
-        return run_history(init, ops, strict)["failures"]
-    except Exception as e:  # noqa: BLE001
+        f = run_history(init, ops, strict)["failures"]
+    except Exception:  # noqa: BLE001
         return []
+    if any(b.startswith("harness:") for _, bb in f for b in bb):
+        return []
+    return f
 
 
 def shrink(init: dict, ops: list[dict], strict: bool) -> list[dict]:
